@@ -4,6 +4,7 @@ import YakModel.SessCheck
 import YakModel.EpochCheck
 import YakModel.VersCheck
 import YakModel.AbsorbCheck
+import YakModel.LeafCheck
 
 open Yak
 
@@ -179,6 +180,33 @@ partial def runAbsorb (h : IO.FS.Stream) : IO UInt32 := do
       IO.println s!"DIFF line {lineNo}: {e}"
   return (if bad == 0 then 0 else 1)
 
+/-- outcome sets of `Proto/Leaf` scenarios (all interleavings of the model); the number of states
+    and the time of each scenario go to stderr -/
+partial def runLeaf (h : IO.FS.Stream) : IO UInt32 := do
+  let out ← IO.getStdout
+  let mut sc : LeafCheck.Scen := {}
+  let mut bad := 0
+  let mut lineNo := 0
+  repeat
+    let line ← h.getLine
+    if line.isEmpty then break
+    lineNo := lineNo + 1
+    let t0 ← IO.monoMsNow
+    match LeafCheck.stepLine sc line.trimAscii.toString with
+    | .ok (sc', o) =>
+      sc := sc'
+      match o with
+      | some o =>
+        IO.println o.line
+        out.flush
+        let t1 ← IO.monoMsNow
+        IO.eprintln s!"leaf: states={o.states} stuck={o.stuck} ms={t1 - t0}"
+      | none => pure ()
+    | .error e =>
+      bad := bad + 1
+      IO.println s!"DIFF line {lineNo}: {e}"
+  return (if bad == 0 then 0 else 1)
+
 def cfgOf : String → Tree.Cfg
   | "d2" => { fixD2 := false }
   | "d5" => { fixD5 := false }
@@ -195,6 +223,7 @@ def main (args : List String) : IO UInt32 := do
   | ["epoch"] => runEpoch stdin
   | ["vers"] => runVers stdin
   | ["absorb"] => runAbsorb stdin
+  | ["leaf"] => runLeaf stdin
   | _ => do
     IO.eprintln "usage: yakmodel unit | seq [fixed|d2|d5|d2d5] [focus classes…] < transcript"
     return 2
